@@ -1,11 +1,26 @@
 import SaModel.Build.Dec
 import SaModel.Spec.WF
+import SaModel.Lemmas.C03Assemble
+import SaModel.Lemmas.C03WFMain
+import SaModel.Lemmas.C03New
+import SaModel.Lemmas.C03Shape
+import SaModel.Lemmas.C03Faithful
+import SaModel.Lemmas.Utf8
+import SaModel.Lemmas.C03PXNew
+import SaModel.Lemmas.C03Final
+import SaModel.Lemmas.C10TakePush
+import SaModel.Props.C01
 /-
 C03 — every produced array is a well-formed Arrow array of the declared field.
 
-Target (full strength): toMarrow ext fields rows = ok arrs → ∀ j, WF fields[j] arrs[j] ∧ all lengths = rows.length,
-as a corollary of the refinement invariant (WFB is preserved by every operation, WFB b → WF f (finish b)).
-Proved so far: the bitmap and offset facts the invariant rests on.
+  C03_wf                 toMarrow ext fields rows = ok arrs → one array per field, each `Spec.WF` for its field and of
+                         `rows.length` rows (explicit assumptions on schema / rows / Ext: see the section header there)
+  toMarrow_decode_state  the arrays decode to exactly the columns the final builder state holds (every family)
+  toMarrow_decode_partial … which are the documented rows `interpRow` of the records (coverage of R2/R3)
+built from the physical layer proved in Lemmas/{Bits,Utf8,FloatBounds,C03*}.lean — `finish_decodeP`/`finish_decode` (the
+finished array means what the state holds), `finish_wf` (it is well formed), the push invariants `push_PX` (offsets,
+UTF-8, view descriptors; no hypotheses) and `push_LR` (value ranges) — and the operational refinement of Props/C01.lean
+(`runRows_rows`, `runRows_interp`) and Lemmas/C10TakePush.lean (`push_takeRest`).  Findings are witness theorems.
 -/
 namespace SaModel.Props.C03
 open SaModel SaModel.Build SaModel.Spec
@@ -52,5 +67,634 @@ theorem duplicateLast_spec (offs offs' : List Int) (h : duplicateLast offs = .ok
 /-- a fresh builder for any list-like type starts with the single offset 0 -/
 example : newDT "$.a" (.list (.mk "element" .int32 false [])) true [] =
     .ok (.list "$.a" false ⟨"element", false, []⟩ (some []) [0] (.leaf "$.a.element" (.int .i32) none [])) := by decide
+
+/-! ### the physical layer: bitmaps (Lemmas/Bits.lean) -/
+
+/-- bit `i` of a finished bitmap is the abstract bit `i` of the builder -/
+theorem getBit_packBits (bs : List Bool) (i : Nat) (h : i < bs.length) : getBit ⟨packBits bs, 0⟩ i = .ok bs[i] :=
+  Lemmas.Bits.getBit_packBits bs i h
+
+/-- padding bits of a finished bitmap are clear -/
+theorem getBit_packBits_pad (bs : List Bool) (i : Nat) (h1 : bs.length ≤ i) (h2 : i < 8 * (packBits bs).length) :
+    getBit ⟨packBits bs, 0⟩ i = .ok false :=
+  Lemmas.Bits.getBit_packBits_pad bs i h1 h2
+
+/-- reading past the last byte is an error -/
+theorem getBit_packBits_oob (bs : List Bool) (i : Nat) (h : 8 * (packBits bs).length ≤ i) :
+    getBit ⟨packBits bs, 0⟩ i = fail "Invalid access in bitset" :=
+  Lemmas.Bits.getBit_packBits_oob bs i h
+
+/-- offset law (what a slice does to a bitmap) -/
+theorem getBit_offset (d : Bytes) (o k i : Nat) : getBit ⟨d, o + k⟩ i = getBit ⟨d, o⟩ (k + i) :=
+  Lemmas.Bits.getBit_offset d o k i
+
+/-! ### the finished array means what the state holds (Lemmas/C03Finish.lean) -/
+
+/-- **`finish_decode`.**  For every builder state satisfying the state invariant, the array `into_array` produces
+decodes — by the Arrow reading rules, slot by slot, through packed bitmaps — to exactly the rows the state holds.
+`Faithful b` excludes the two recorded exceptions (negations below): `FixedSizeBinary(0)` holding rows, and
+dictionary slots holding the dummy key 0 while the dictionary has no value. -/
+theorem finish_decode (ext : Ext) (b : B) (a : Arr) (hw : WFB b) (hf : Lemmas.C03.Faithful b)
+    (h : finish ext b = .ok a) : decodeAll a = (dec b).map .ok :=
+  Lemmas.C03.finish_decode ext b a hw hf h
+
+/-- row-wise form: `Spec.decode (finish b) i = (dec b)[i]` -/
+theorem finish_decode_row (ext : Ext) (b : B) (a : Arr) (hw : WFB b) (hf : Lemmas.C03.Faithful b)
+    (h : finish ext b = .ok a) (i : Nat) (hi : i < (dec b).length) : decode a i = .ok (dec b)[i] := by
+  unfold decode
+  rw [finish_decode ext b a hw hf h]
+  exact Lemmas.C03.slot_map_ok _ i hi
+
+/-- the finished array has as many rows as the state -/
+theorem finish_len (ext : Ext) (b : B) (a : Arr) (hw : WFB b) (hf : Lemmas.C03.Faithful b)
+    (h : finish ext b = .ok a) : Spec.Arr.len a = (dec b).length := by
+  unfold Spec.Arr.len
+  rw [finish_decode ext b a hw hf h, List.length_map]
+
+/-- all columns of a struct builder at once (what `build_arrays` returns) -/
+theorem finishFields_decode (ext : Ext) (fs : BL) (afs : ArrFields) (len : Nat) (hw : WFL fs len)
+    (hf : Lemmas.C03.FaithfulL fs) (h : finishFields ext fs = .ok afs) :
+    decodeFields afs = (decCols fs).map fun c => (c.1, c.2.map .ok) :=
+  Lemmas.C03.finishFields_decode ext fs afs (Lemmas.C03.WFL_WFBs fs len hw) hf h
+
+/-- **known finding (FixedSizeBinary(0)).**  Without `Faithful` the statement is false: a `FixedSizeBinary(0)`
+builder holding one row finishes into an array with no rows (the length is derived from `data.len() / n`). -/
+theorem finish_decode_fixedSizeBinary0_false :
+    ∃ (b : B) (a : Arr), WFB b ∧ finish {} b = .ok a ∧ decodeAll a ≠ (dec b).map .ok :=
+  ⟨.fixedSizeBinary "$.a" 0 1 none [] 0, .fixedSizeBinary 0 none [],
+    by simp [WFB, VLen], rfl, by decide⟩
+
+/-- **dictionary placeholder.**  Without `Faithful` the statement is false for a dictionary slot holding the dummy
+key 0 while no value has been pushed: `into_array` appends the placeholder value `""`, so the finished slot reads
+the empty string while the state holds no value for it (`dec` reads null).  The witness is a reachable state: one
+`serialize_default` (what a null parent struct issues) into a fresh non-nullable `Dictionary(UInt32, Utf8)` builder.
+(Stated operationally, without `WFB`: a state invariant may or may not allow such hidden slots.) -/
+theorem finish_decode_dictionary_dummy_false :
+    ∃ (b0 b : B) (a : Arr), newDT "$.a" (.dictionary .uint32 .utf8) false [] = .ok b0 ∧ pushDefault b0 = .ok b ∧
+      finish {} b = .ok a ∧ decodeAll a ≠ (dec b).map .ok :=
+  ⟨.dictionary "$.a" (.leaf "$.a.key" (.int .u32) none []) (.bytes "$.a.value" .utf8 none [0] []) [],
+   .dictionary "$.a" (.leaf "$.a.key" (.int .u32) none [0]) (.bytes "$.a.value" .utf8 none [0] []) [],
+   .dictionary (.prim .uint32 none [0]) (.bytes .utf8 none [0, 0] []),
+    by decide, by decide,
+    by
+      have hp : pushScalar {} (.bytes "$.a.value" .utf8 none [0] []) (.str "") =
+          .ok (.bytes "$.a.value" .utf8 none [0, 0] []) := by
+        simp [pushScalar, isUtf8Ty, scalarToString, strBytes, setValidity, duplicateLast, incrementLast, bind,
+          Except.bind, offMax, isLargeTy, pure, Except.pure]
+      simp [finish, hp, ctx, finishLeaf, finishValidity, primOfInt, B.isNullable, B.rows, appendEmptyStr, bind,
+        Except.bind, pure, Except.pure],
+    by decide⟩
+
+/-! ### non-vacuity of `finish_decode`: nullable list of nullable ints, rows `[[1, null], null]` -/
+example : ∃ b a, WFB b ∧ Lemmas.C03.Faithful b ∧ finish {} b = .ok a ∧
+    dec b = [.list (.cons (.int 1) (.cons .null .nil)), .null] :=
+  ⟨.list "$.a" false ⟨"element", true, []⟩ (some [true, false]) [0, 2, 2]
+      (.leaf "$.a.element" (.int .i32) (some [true, false]) [1, 0]), _,
+    by simp [WFB, VLen, OffsOK, dec, maskNull], by simp [Lemmas.C03.Faithful], rfl, by decide⟩
+
+/-! ### every slot of the finished array, hidden ones included -/
+
+/-- **`finish_decodeP`.**  `decP b` is `dec b` with dictionary keys read through the values of the *finished*
+dictionary (placeholder included).  Under `Sound` (weaker than `Faithful`: dummy keys allowed as long as the
+finished dictionary has a value for them) every slot of the finished array decodes, to `decP`. -/
+theorem finish_decodeP (ext : Ext) (b : B) (a : Arr) (hw : WFB b) (hs : Lemmas.C03.Sound b)
+    (h : finish ext b = .ok a) : decodeAll a = (Lemmas.C03.decP b).map .ok :=
+  Lemmas.C03.finish_decodeP ext b a hw hs h
+
+theorem decP_length (b : B) : (Lemmas.C03.decP b).length = (dec b).length := Lemmas.C03.decP_length b
+
+theorem decP_eq_dec (b : B) (hw : WFB b) (hf : Lemmas.C03.Faithful b) : Lemmas.C03.decP b = dec b :=
+  Lemmas.C03.decP_eq_dec b hw hf
+
+theorem Faithful_Sound (b : B) (hw : WFB b) (hf : Lemmas.C03.Faithful b) : Lemmas.C03.Sound b :=
+  Lemmas.C03.Faithful_Sound b hw hf
+
+/-- non-vacuity of `Sound` beyond `Faithful`: the dummy-key dictionary of `finish_decode_dictionary_dummy_false`
+is `Sound`, and its finished array reads the placeholder `""` -/
+example : Lemmas.C03.Sound (.dictionary "$.a" (.leaf "$.a.key" (.int .u32) none [0]) (.bytes "$.a.value" .utf8 none [0] []) []) ∧
+    Lemmas.C03.decP (.dictionary "$.a" (.leaf "$.a.key" (.int .u32) none [0]) (.bytes "$.a.value" .utf8 none [0] []) []) =
+      [.str []] := by
+  refine ⟨?_, by decide⟩
+  simp only [Lemmas.C03.Sound, true_and]
+  intro k hk
+  have : k = .int 0 := by simpa [Lemmas.C03.decP, maskNull, leafVal] using hk
+  exact Or.inr ⟨0, this, by decide⟩
+
+/-! ### well-formedness of the finished array -/
+
+/-- bitmap of a finished array: present iff nullable, bit offset 0, exactly ⌈len/8⌉ bytes, padding bits clear -/
+theorem validityOk_finish (v : Validity) (nl : Bool) (n : Nat) (hn : v.isSome = nl) (hv : VLen v n) :
+    validityOk nl (finishValidity v) n = true :=
+  Lemmas.C03.validityOk_finish v nl n hn hv
+
+/-- **`finish_wf`.**  The array a builder finishes into is a well-formed array (`Spec.wf`: type equality including
+child names / nullability / metadata, bitmaps, offsets, child lengths, ids and keys in range, UTF-8) of the data type
+the builder was created for.  Hypotheses: `BuiltFor` (shape; `newDT_builtFor`), the state invariant `WFB`,
+`Sound` (known finding FixedSizeBinary(0); dictionary keys designate a value) and `WFX` (what `WFB` does not carry:
+values in physical range, offsets ≤ i32/i64 max, string data valid UTF-8). -/
+theorem finish_wf (ext : Ext) (b : B) (dt : DataType) (nl : Bool) (a : Arr)
+    (hb : Lemmas.C03.BuiltFor dt nl b) (hw : WFB b) (hs : Lemmas.C03.Sound b) (hx : Lemmas.C03.WFX b)
+    (h : finish ext b = .ok a) : wf dt nl a = true :=
+  Lemmas.C03.finish_wf ext b dt nl a hb hw hs hx h
+
+/-- non-vacuity of `finish_wf`: a nullable list of nullable Int32 holding `[[1, null], null]` satisfies every
+hypothesis (so its finished array — bitmaps `[1]`, `[1]`, offsets `[0,2,2]` — is well formed by the theorem) -/
+example : ∃ b, Lemmas.C03.BuiltFor (.list (.mk "element" .int32 true [])) true b ∧ WFB b ∧ Lemmas.C03.Sound b ∧
+    Lemmas.C03.WFX b ∧ (dec b).length = 2 :=
+  ⟨.list "$.a" false ⟨"element", true, []⟩ (some [true, false]) [0, 2, 2]
+      (.leaf "$.a.element" (.int .i32) (some [true, false]) [1, 0]),
+    ⟨.mk "element" .int32 true [], by simp, rfl, rfl, by simp [Lemmas.C03.BuiltFor, Lemmas.C03.leafDT, Lemmas.C03.intDT,
+      Field.dataType, Field.nullable]⟩,
+    by simp [WFB, VLen, OffsOK, dec, maskNull], by simp [Lemmas.C03.Sound],
+    by simp [Lemmas.C03.WFX, offMax, Lemmas.C03.leafRange, inRng, primRange, primOfInt], by decide⟩
+
+/-- the builder created for a field stands for it (every Map type with exactly two entry children) -/
+theorem newB_builtFor (path : String) (f : Field) (b : B) (hm : Lemmas.C03.Map2F f) (h : newB path f = .ok b) :
+    Lemmas.C03.BuiltFor f.dataType f.nullable b :=
+  Lemmas.C03.newB_builtFor path f b hm h
+
+theorem newRoot_builtFor (fields : List Field) (root : B) (hm : ∀ f ∈ fields, Lemmas.C03.Map2F f)
+    (h : newRoot fields = .ok root) : Lemmas.C03.BuiltFor (.struct (Fields.ofList fields)) false root :=
+  Lemmas.C03.newRoot_builtFor fields root hm h
+
+/-- **finding (Map with more than two entry children).**  `build_builder` only looks at the first two children of
+a Map's entries struct; the field is accepted and the produced array's type is not the declared one. -/
+theorem map_three_children_not_wf :
+    ∃ (f : Field) (b : B) (a : Arr), newB "$.m" f = .ok b ∧ finish {} b = .ok a ∧ WF f a = false :=
+  ⟨.mk "m" (.map (.mk "entries" (.struct (.cons (.mk "key" .int32 false []) (.cons (.mk "value" .int32 false [])
+      (.cons (.mk "extra" .int32 false []) .nil)))) false []) false) false [], _, _, rfl, rfl, by decide⟩
+
+/-- **finding (Dictionary with a floating-point key type).**  `build_builder` accepts any key type; a `Float32` /
+`Float64` keys builder accepts the `u64` index the dictionary builder pushes (`serialize_u64` as float), so the field
+is accepted and the produced dictionary array has float keys: not a valid Arrow dictionary (no slot decodes). -/
+theorem dictionary_float_keys_not_wf :
+    ∃ (f : Field) (b0 b : B) (a : Arr), newB "$.d" f = .ok b0 ∧ push {} b0 (.str "") = .ok b ∧ finish {} b = .ok a ∧
+      WF f a = false := by
+  refine ⟨.mk "d" (.dictionary .float32 .utf8) false [],
+    .dictionary "$.d" (.leaf "$.d.key" .f32 none []) (.bytes "$.d.value" .utf8 none [0] []) [],
+    .dictionary "$.d" (.leaf "$.d.key" .f32 none [0]) (.bytes "$.d.value" .utf8 none [0, 0] []) [""],
+    .dictionary (.prim .float32 none [0]) (.bytes .utf8 none [0, 0] []), by decide, ?_, ?_, by decide⟩
+  · have hp : pushScalar {} (.bytes "$.d.value" .utf8 none [0] []) (.str "") =
+        .ok (.bytes "$.d.value" .utf8 none [0, 0] []) := by
+      simp [pushScalar, isUtf8Ty, scalarToString, strBytes, setValidity, duplicateLast, incrementLast, bind,
+        Except.bind, offMax, isLargeTy, pure, Except.pure]
+    have hk : pushScalar {} (.leaf "$.d.key" .f32 none []) (.int .u64 0) = .ok (.leaf "$.d.key" .f32 none [0]) := by
+      decide
+    simp only [push]
+    rw [pushScalar]
+    simp [hp, hk, scalarToString, indexOfName, indexOfName.go, ctx, bind, Except.bind, pure, Except.pure]
+  · simp [finish, finishLeaf, finishValidity, B.isNullable, B.rows, bind, Except.bind, pure, Except.pure]
+
+/-- **known finding (FixedSizeBinary(0))**, well-formedness side: a nullable `FixedSizeBinary(0)` column with one
+row finishes into an array whose length (0) does not cover its bitmap (1 byte) -/
+theorem fixedSizeBinary0_not_wf :
+    ∃ (b : B) (a : Arr), WFB b ∧ Lemmas.C03.BuiltFor (.fixedSizeBinary 0) true b ∧ finish {} b = .ok a ∧
+      wf (.fixedSizeBinary 0) true a = false := by
+  refine ⟨.fixedSizeBinary "$.a" 0 1 (some [true]) [] 0, .fixedSizeBinary 0 (some ⟨[1], 0⟩) [], ?_, ?_, ?_, by decide⟩
+  · simp [WFB, VLen]
+  · simp [Lemmas.C03.BuiltFor]
+  · simp [finish, finishValidity, packBits, packByte, List.zipIdx]
+
+/-! ### where `Faithful` / `Sound` / the UTF-8 part of `WFX` come from -/
+
+/-- every string a builder receives is valid UTF-8 (Rust: `&str` by type; model: a Lean `String`) -/
+theorem validUtf8_strBytes (s : String) : validUtf8 (strBytes s) = true := Lemmas.Utf8.validUtf8_strBytes s
+
+/-- `ShapeOK` (no `FixedSizeBinary(0)`, integer dictionary keys) holds of the builder of a `SchemaOK` type … -/
+theorem BuiltFor_ShapeOK (b : B) (dt : DataType) (nl : Bool) (hb : Lemmas.C03.BuiltFor dt nl b)
+    (hs : Lemmas.C03.SchemaOK dt) : Lemmas.C03.ShapeOK b :=
+  Lemmas.C03.BuiltFor_ShapeOK b dt nl hb hs
+
+/-- … and is a property of the shape only (so `push_takeRest` preserves it) -/
+theorem ShapeOK_of_takeRest_eq (b b' : B) (h : takeRest b' = takeRest b) (hb : Lemmas.C03.ShapeOK b) :
+    Lemmas.C03.ShapeOK b' :=
+  Lemmas.C03.ShapeOK_of_takeRest_eq b b' h hb
+
+/-- with the strict dictionary clause of the state invariant (`StrictDict`: no key designates a missing value) a
+`ShapeOK` builder is `Faithful` — hence `Sound` (`Faithful_Sound`) -/
+theorem Faithful_of_strict (b : B) (hs : Lemmas.C03.StrictDict b) (ho : Lemmas.C03.ShapeOK b) : Lemmas.C03.Faithful b :=
+  Lemmas.C03.Faithful_of_strict b hs ho
+
+/-! ### C03 for `to_marrow` -/
+
+theorem toMarrow_split (ext : Ext) (fields : List Field) (rows : List SVal) (arrs : List Arr)
+    (h : toMarrow ext fields rows = .ok arrs) :
+    ∃ root, runRows ext fields rows = .ok root ∧ ∃ rest, buildArrays ext root = .ok (arrs, rest) := by
+  simp only [toMarrow, runRows, bind, Except.bind] at h ⊢
+  cases hr : newRoot fields with
+  | error e => rw [hr] at h; cases h
+  | ok r0 =>
+    rw [hr] at h
+    dsimp only at h ⊢
+    cases hf : List.foldlM (push ext) r0 rows with
+    | error e => rw [hf] at h; cases h
+    | ok root =>
+      rw [hf] at h
+      dsimp only at h
+      refine ⟨root, rfl, ?_⟩
+      cases hb : buildArrays ext root with
+      | error e => rw [hb] at h; cases h
+      | ok p =>
+        rw [hb] at h
+        obtain ⟨as, rest⟩ := p
+        cases h
+        exact ⟨rest, rfl⟩
+
+/-- **C03 from facts about the final builder state** (lemma; the assembled theorem is `C03_wf` below): given the
+state invariant `WFB root`, the shape relation `BuiltFor (struct fields) false root`, `Sound root` and `WFX root`,
+every array `to_marrow` returns is a well-formed array of its field, there is one array per field, and all arrays have
+the same number of rows. -/
+theorem C03_wf_of_root (ext : Ext) (fields : List Field) (rows : List SVal) (arrs : List Arr)
+    (hwfb : ∀ root, runRows ext fields rows = .ok root → WFB root)
+    (hshape : ∀ root, runRows ext fields rows = .ok root →
+      Lemmas.C03.BuiltFor (.struct (Fields.ofList fields)) false root)
+    (hsound : ∀ root, runRows ext fields rows = .ok root → Lemmas.C03.Sound root)
+    (hwfx : ∀ root, runRows ext fields rows = .ok root → Lemmas.C03.WFX root)
+    (h : toMarrow ext fields rows = .ok arrs) :
+    arrs.length = fields.length ∧
+    ∃ n : Nat, ∀ (j : Nat) (f : Field) (a : Arr), fields[j]? = some f → arrs[j]? = some a →
+      WF f a = true ∧ (decodeAll a).length = n := by
+  obtain ⟨root, hrun, rest, hba⟩ := toMarrow_split ext fields rows arrs h
+  have hw := hwfb root hrun
+  have hb := hshape root hrun
+  have hs := hsound root hrun
+  have hx := hwfx root hrun
+  cases root with
+  | struct p len v fs cached next seen =>
+    simp only [buildArrays, bind, Except.bind] at hba
+    cases hf : finishFields ext fs with
+    | error e => rw [hf] at hba; cases hba
+    | ok afs =>
+      rw [hf] at hba
+      simp only [pure, Except.pure, Except.ok.injEq, Prod.mk.injEq] at hba
+      obtain ⟨rfl, _⟩ := hba
+      simp only [Lemmas.C03.BuiltFor] at hb
+      obtain ⟨fields', hfe, _, hbl⟩ := hb
+      simp only [DataType.struct.injEq] at hfe
+      subst hfe
+      have hwf := Lemmas.C03.finishFields_wf ext fs _ len afs hbl (Lemmas.C03.WFB_struct hw).2
+        (Lemmas.C03.Sound_struct hs) (Lemmas.C03.WFX_struct hx) hf
+      obtain ⟨hlen, hget⟩ := Lemmas.C03.wfFields_get _ afs len hwf
+      rw [Fields.toList_ofList] at hlen
+      refine ⟨by simp [hlen], len, ?_⟩
+      intro j f a hfj haj
+      rw [List.getElem?_map] at haj
+      cases hma : afs.toList[j]? with
+      | none => rw [hma] at haj; cases haj
+      | some ma =>
+        rw [hma] at haj
+        simp only [Option.map_some, Option.some.injEq] at haj
+        subst haj
+        have := hget j f ma (by rw [Fields.toList_ofList]; exact hfj) hma
+        exact ⟨this.2.2, this.2.1⟩
+  | _ => simp [buildArrays, panic] at hba
+
+/-- shape preservation reduced to `push_takeRest` (Lemmas/C10TakePush.lean): `BuiltFor` only depends on `takeRest`;
+`hpush` is `Build.push_takeRest ext` -/
+theorem runRows_builtFor (ext : Ext) (fields : List Field) (rows : List SVal) (root : B)
+    (hpush : ∀ (x : SVal) (b b' : B), push ext b x = .ok b' → takeRest b' = takeRest b)
+    (hm : ∀ f ∈ fields, Lemmas.C03.Map2F f) (h : runRows ext fields rows = .ok root) :
+    Lemmas.C03.BuiltFor (.struct (Fields.ofList fields)) false root :=
+  Lemmas.C03.runRows_builtFor ext fields rows root hpush hm h
+
+/-- **offsets and UTF-8, unconditionally.**  `PX` (bytes builders: offsets start at 0, never decrease, end at
+`data.length`, stay ≤ i32/i64 max, every Utf8/LargeUtf8 slot valid UTF-8; list/map offsets ≤ i32/i64 max) is
+preserved by every push — no assumption on the value, on `Ext`, or on any other invariant — and holds of fresh
+builders; so it holds after any accepted sequence of rows. -/
+theorem push_PX (ext : Ext) (x : SVal) (b b' : B) (h : push ext b x = .ok b') (hp : Lemmas.C03.PX b) :
+    Lemmas.C03.PX b' :=
+  Lemmas.C03.push_PX ext x b b' h hp
+
+theorem runRows_PX (ext : Ext) (fields : List Field) (rows : List SVal) (root : B)
+    (h : runRows ext fields rows = .ok root) : Lemmas.C03.PX root :=
+  Lemmas.C03.runRows_PX ext fields rows root h
+
+theorem SchemaOKFs_ofList : ∀ (fields : List Field), (∀ f ∈ fields, Lemmas.C03.SchemaOKF f) →
+    Lemmas.C03.SchemaOKFs (Fields.ofList fields)
+  | [], _ => trivial
+  | f :: r, h => by
+    simp only [Fields.ofList, Lemmas.C03.SchemaOKFs]
+    exact ⟨h f (by simp), SchemaOKFs_ofList r (fun g hg => h g (by simp [hg]))⟩
+
+/-- everything the physical layer needs to know about the final builder state, from the interface hypotheses -/
+theorem root_facts (ext : Ext) (fields : List Field) (rows : List SVal) (root : B)
+    (hmap : ∀ f ∈ fields, Lemmas.C03.Map2F f) (hschema : ∀ f ∈ fields, Lemmas.C03.SchemaOKF f)
+    (hpush : ∀ (x : SVal) (b b' : B), push ext b x = .ok b' → takeRest b' = takeRest b)
+    (hw : WFB root) (hstrict : Lemmas.C03.StrictDict root) (hrun : runRows ext fields rows = .ok root) :
+    Lemmas.C03.BuiltFor (.struct (Fields.ofList fields)) false root ∧ Lemmas.C03.Faithful root ∧
+      Lemmas.C03.Sound root ∧ Lemmas.C03.PX root := by
+  have hb := runRows_builtFor ext fields rows root hpush hmap hrun
+  have hshape := Lemmas.C03.BuiltFor_ShapeOK root _ _ hb (by
+    simp only [Lemmas.C03.SchemaOK]; exact SchemaOKFs_ofList fields hschema)
+  have hf := Lemmas.C03.Faithful_of_strict root hstrict hshape
+  exact ⟨hb, hf, Lemmas.C03.Faithful_Sound root hw hf, runRows_PX ext fields rows root hrun⟩
+
+/-- leaf values stay within the physical range of their type (explicit assumptions: `ExtOK`, `SValOK`; `FloatOK` is
+proved: `floatOK`) -/
+theorem push_LR (ext : Ext) (he : Lemmas.C03.ExtOK ext) (hf : Lemmas.C03.FloatOK) (x : SVal) (b b' : B)
+    (hx : Lemmas.C03.SValOK x) (h : push ext b x = .ok b') (hp : Lemmas.C03.LR b) : Lemmas.C03.LR b' :=
+  Lemmas.C03.push_LR ext he hf x b b' hx h hp
+
+/-- the IEEE conversions of the model return bit patterns of the target width -/
+theorem floatOK : Lemmas.C03.FloatOK := Lemmas.C03.floatOK
+
+/-- non-vacuity of `ExtOK`: the default `Ext` (every external parser refuses) satisfies it -/
+example : Lemmas.C03.ExtOK {} where
+  date32 := by intro s v h; cases h
+  date64 := by intro s v h; cases h
+  time := by intro u s v h; cases h
+  timestamp := by intro u utc s v h; cases h
+  duration := by intro u s v h; cases h
+
+/-- non-vacuity of `SValOK`: a record with an `i32`, an `f32` and a nested sequence -/
+example : Lemmas.C03.SValOK (.record "R" (.cons "a" 0 (.int .i32 7) (.cons "b" 1 (.f32 1065353216)
+    (.cons "c" 2 (.seq (.cons (.some (.int .u8 255)) .nil)) .nil)))) := by
+  simp [Lemmas.C03.SValOK, Lemmas.C03.SFieldsOK, Lemmas.C03.SValsOK, Lemmas.C03.ScalarOK, IntTy.inRange, IntTy.min,
+    IntTy.max]
+
+/-- what `push_scalar_value` of a bytes-view builder writes designates the pushed bytes -/
+theorem decodeView_inline (bufs : List Bytes) (data : Bytes) (h : data.length ≤ 12) :
+    decodeView bufs (packInline data) = .ok data :=
+  Lemmas.C03.decodeView_inline bufs data h
+
+theorem decodeView_extern (buf data : Bytes) (hlen : 12 < data.length) (hsmall : (buf ++ data).length < 2 ^ 32) :
+    decodeView [buf ++ data] (packExtern data 0 buf.length) = .ok data :=
+  Lemmas.C03.decodeView_extern buf data hlen hsmall
+
+theorem ArrFields_toList_decode : ∀ (x : ArrFields),
+    x.toList.map (fun ma => decodeAll ma.2) = (decodeFields x).map (·.2)
+  | .nil => rfl
+  | .cons m a r => by simp [ArrFields.toList, decodeFields, ArrFields_toList_decode r]
+
+/-- the physical half of C01 for `to_marrow`: the returned arrays decode to exactly the columns the final builder
+state holds (`decRoot`).  Same interface hypotheses; `Faithful` instead of `Sound` (no dummy dictionary keys). -/
+theorem toMarrow_decode_of_root (ext : Ext) (fields : List Field) (rows : List SVal) (arrs : List Arr)
+    (hwfb : ∀ root, runRows ext fields rows = .ok root → WFB root)
+    (hfaith : ∀ root, runRows ext fields rows = .ok root → Lemmas.C03.Faithful root)
+    (h : toMarrow ext fields rows = .ok arrs) :
+    ∃ root, runRows ext fields rows = .ok root ∧ arrs.map decodeAll = (decRoot root).map (·.map .ok) := by
+  obtain ⟨root, hrun, rest, hba⟩ := toMarrow_split ext fields rows arrs h
+  refine ⟨root, hrun, ?_⟩
+  have hw := hwfb root hrun
+  have hf := hfaith root hrun
+  cases root with
+  | struct p len v fs cached next seen =>
+    simp only [buildArrays, bind, Except.bind] at hba
+    cases hfin : finishFields ext fs with
+    | error e => rw [hfin] at hba; cases hba
+    | ok afs =>
+      rw [hfin] at hba
+      simp only [pure, Except.pure, Except.ok.injEq, Prod.mk.injEq] at hba
+      obtain ⟨rfl, _⟩ := hba
+      have hd := Lemmas.C03.finishFields_decode ext fs afs
+        (Lemmas.C03.WFL_WFBs fs len (Lemmas.C03.WFB_struct hw).2) (Lemmas.C03.Faithful_struct hf) hfin
+      simp only [decRoot, List.map_map]
+      have := ArrFields_toList_decode afs
+      have e : (decodeAll ∘ fun (x : FieldMeta × Arr) => x.snd) = fun ma => decodeAll ma.snd := rfl
+      rw [e, this, hd, List.map_map]
+      rfl
+  | _ => simp [buildArrays, panic] at hba
+
+/-! ### the assembled theorems (refinement interface discharged)
+
+With agent-refine's theorems merged (`Build.push_takeRest`, `Props.C01.runRows_rows`, `Props.C01.runRows_interp`,
+`WFB_StrictDict`) nothing of the interface remains.  What stays are explicit assumptions on the schema, the rows and
+`Ext`, each justified in notes/C03.md:
+
+  schema   `Map2F` (Map entries have exactly two children), `SchemaOKF` (no `FixedSizeBinary(0)`; dictionary keys of an
+           integer type) — exclusions of recorded findings, each with a witness theorem in this file;
+           `Safe root0` (Build/Inv.lean: no dictionary with non-nullable keys below a nullable struct / fixed-size
+           list; a property of the fresh root, i.e. of the schema — `Props.C01.dict_placeholder_unstable`)
+  rows     `rawOK` (raw key/value call streams alternate; vacuous without `mapRaw`), `SValOK` (an iN/uN/f32/f64 call
+           carries a value of that width)
+  Ext      `ExtOK` (what the external chrono parsers return fits the column's storage)
+  size     `ViewSmall` (bytes-view buffers below 4 GiB in the final state) -/
+
+/-- **C03.**  Every array `to_marrow` returns is a well-formed array of its field (`Spec.WF`: data type equal to the
+field's including child names / nullability / metadata / parameters; bitmap present iff nullable with exactly ⌈len/8⌉
+bytes and clear padding; offsets start at 0, never decrease, end at the child length and stay within i32/i64; fixed-size
+child lengths; type ids, dense offsets and dictionary keys in range; string data valid UTF-8; values within their
+physical range), there is exactly one array per field, and every array has `rows.length` rows. -/
+theorem C03_wf (ext : Ext) (fields : List Field) (rows : List SVal) (arrs : List Arr)
+    (hmap : ∀ f ∈ fields, Lemmas.C03.Map2F f) (hschema : ∀ f ∈ fields, Lemmas.C03.SchemaOKF f)
+    (hsafe : ∀ root0, newRoot fields = .ok root0 → Safe root0)
+    (hext : Lemmas.C03.ExtOK ext)
+    (hraw : ∀ x ∈ rows, Build.rawOK x = true) (hrows : ∀ x ∈ rows, Lemmas.C03.SValOK x)
+    (hsmall : ∀ root, runRows ext fields rows = .ok root → Lemmas.C03.ViewSmall root)
+    (h : toMarrow ext fields rows = .ok arrs) :
+    arrs.length = fields.length ∧
+    ∀ (j : Nat) (f : Field) (a : Arr), fields[j]? = some f → arrs[j]? = some a →
+      WF f a = true ∧ (decodeAll a).length = rows.length := by
+  obtain ⟨root, hrun, rest, hba⟩ := toMarrow_split ext fields rows arrs h
+  -- the fresh root
+  have h0 : ∃ root0, newRoot fields = .ok root0 := by
+    simp only [runRows] at hrun
+    cases hr : newRoot fields with
+    | error e => rw [hr] at hrun; cases hrun
+    | ok r0 => exact ⟨r0, rfl⟩
+  obtain ⟨root0, h0⟩ := h0
+  obtain ⟨hw, hlen, _, hcols⟩ := Props.C01.runRows_rows ext fields rows root0 root h0 (hsafe root0 h0) hraw hrun
+  have hfacts := root_facts ext fields rows root hmap hschema (Build.push_takeRest ext) hw
+    (Lemmas.C03.WFB_StrictDict root hw) hrun
+  have hx := Lemmas.C03.runRows_WFX ext hext fields rows root hrows hrun (hsmall root hrun)
+  cases root with
+  | struct p len v fs cached next seen =>
+    simp only [buildArrays, bind, Except.bind] at hba
+    cases hf : finishFields ext fs with
+    | error e => rw [hf] at hba; cases hba
+    | ok afs =>
+      rw [hf] at hba
+      simp only [pure, Except.pure, Except.ok.injEq, Prod.mk.injEq] at hba
+      obtain ⟨rfl, _⟩ := hba
+      have hb := hfacts.1
+      simp only [Lemmas.C03.BuiltFor] at hb
+      obtain ⟨fields', hfe, _, hbl⟩ := hb
+      simp only [DataType.struct.injEq] at hfe
+      subst hfe
+      have hwl := (Lemmas.C03.WFB_struct hw).2
+      have hwf := Lemmas.C03.finishFields_wf ext fs _ len afs hbl hwl
+        (Lemmas.C03.Sound_struct hfacts.2.2.1) (Lemmas.C03.WFX_struct hx) hf
+      obtain ⟨hl, hget⟩ := Lemmas.C03.wfFields_get _ afs len hwf
+      rw [Fields.toList_ofList] at hl
+      refine ⟨by simp [hl], ?_⟩
+      intro j f a hfj haj
+      rw [List.getElem?_map] at haj
+      cases hma : afs.toList[j]? with
+      | none => rw [hma] at haj; cases haj
+      | some ma =>
+        rw [hma] at haj
+        simp only [Option.map_some, Option.some.injEq] at haj
+        subst haj
+        have := hget j f ma (by rw [Fields.toList_ofList]; exact hfj) hma
+        refine ⟨this.2.2, ?_⟩
+        rw [this.2.1]
+        -- the root's row count is the number of rows pushed
+        have hv : (dec (B.struct p len v fs cached next seen)).length = len := by
+          simp only [dec]
+          exact Lemmas.C03.maskNull_length v len _ (Lemmas.C03.WFB_struct hw).1 (by simp)
+        omega
+  | _ => simp [buildArrays, panic] at hba
+
+/-- **the physical half of C01 for `to_marrow`, every builder family.**  The returned arrays decode to exactly the
+columns the final builder state holds (`decRoot root`, `rows.length` slots each). -/
+theorem toMarrow_decode_state (ext : Ext) (fields : List Field) (rows : List SVal) (arrs : List Arr)
+    (hmap : ∀ f ∈ fields, Lemmas.C03.Map2F f) (hschema : ∀ f ∈ fields, Lemmas.C03.SchemaOKF f)
+    (hsafe : ∀ root0, newRoot fields = .ok root0 → Safe root0)
+    (hraw : ∀ x ∈ rows, Build.rawOK x = true)
+    (h : toMarrow ext fields rows = .ok arrs) :
+    ∃ root, runRows ext fields rows = .ok root ∧ arrs.map decodeAll = (decRoot root).map (·.map .ok) ∧
+      ∀ col ∈ decRoot root, col.length = rows.length := by
+  have hroot : ∀ root, runRows ext fields rows = .ok root → WFB root ∧ ∀ col ∈ decRoot root, col.length = rows.length := by
+    intro root hrun
+    have h0 : ∃ root0, newRoot fields = .ok root0 := by
+      simp only [runRows] at hrun
+      cases hr : newRoot fields with
+      | error e => rw [hr] at hrun; cases hrun
+      | ok r0 => exact ⟨r0, rfl⟩
+    obtain ⟨root0, h0⟩ := h0
+    obtain ⟨hw, _, _, hc⟩ := Props.C01.runRows_rows ext fields rows root0 root h0 (hsafe root0 h0) hraw hrun
+    exact ⟨hw, hc⟩
+  obtain ⟨root, hrun, hd⟩ := toMarrow_decode_of_root ext fields rows arrs (fun r hr => (hroot r hr).1)
+    (fun r hr => (root_facts ext fields rows r hmap hschema (Build.push_takeRest ext) (hroot r hr).1
+      (Lemmas.C03.WFB_StrictDict r (hroot r hr).1) hr).2.1) h
+  exact ⟨root, hrun, hd, (hroot root hrun).2⟩
+
+theorem All2_get {α β} {R : α → β → Prop} : ∀ {l1 : List α} {l2 : List β}, Build.All2 R l1 l2 →
+    l1.length = l2.length ∧ ∀ (i : Nat) (h1 : i < l1.length) (h2 : i < l2.length), R l1[i] l2[i]
+  | [], [], .nil => ⟨rfl, fun i h1 _ => absurd h1 (by simp)⟩
+  | _ :: _, _ :: _, .cons hr ht => by
+    obtain ⟨hl, hg⟩ := All2_get ht
+    refine ⟨by simp [hl], ?_⟩
+    intro i h1 h2
+    cases i with
+    | zero => exact hr
+    | succ i => exact hg i (by simpa using h1) (by simpa using h2)
+
+/-- **C01 for `to_marrow`, physical and logical halves composed.**  The returned arrays decode (Arrow reading rules,
+slot by slot, through the packed bitmaps) to columns `cols` of `rows.length` slots each, and the documented value
+(`Spec.interpRow`: records matched by field name, numbers by value …) of the `i`-th input record is exactly the struct
+whose `j`-th field is slot `i` of column `j`.  Coverage is that of R2/R3 (`coveredF`: every builder family except view
+types and dictionaries; `noRaw`: values without raw key/value call streams).
+PARTIAL only in that coverage: the physical half (`toMarrow_decode_state`) holds for every family; what is missing for
+view types and dictionaries is R2 (`Props.C01.push_interp`: the appended row is `interpDT` of the value). -/
+theorem toMarrow_decode_partial (ext : Ext) (fields : List Field) (rows : List SVal) (arrs : List Arr)
+    (hmap : ∀ f ∈ fields, Lemmas.C03.Map2F f) (hschema : ∀ f ∈ fields, Lemmas.C03.SchemaOKF f)
+    (hcov : fields.all Build.coveredF = true)
+    (hsafe : ∀ root0, newRoot fields = .ok root0 → Safe root0)
+    (hraw : ∀ x ∈ rows, Build.noRaw x = true)
+    (h : toMarrow ext fields rows = .ok arrs) :
+    ∃ cols : List (String × List LVal),
+      arrs.map decodeAll = cols.map (fun c => c.2.map .ok) ∧
+      cols.map (·.1) = fields.map (·.name) ∧
+      (∀ c ∈ cols, c.2.length = rows.length) ∧
+      ∀ (i : Nat) (hi : i < rows.length),
+        interpRow ext fields rows[i] = .ok (.struct (LFields.ofList (cols.map fun c => (c.1, c.2.getD i .null)))) := by
+  obtain ⟨root, hrun, rest, hba⟩ := toMarrow_split ext fields rows arrs h
+  have h0 : ∃ root0, newRoot fields = .ok root0 := by
+    simp only [runRows] at hrun
+    cases hr : newRoot fields with
+    | error e => rw [hr] at hrun; cases hrun
+    | ok r0 => exact ⟨r0, rfl⟩
+  obtain ⟨root0, h0⟩ := h0
+  have hs0 := hsafe root0 h0
+  obtain ⟨hw, _, _, _⟩ := Props.C01.runRows_rows ext fields rows root0 root h0 hs0
+    (fun x hx => Build.noRaw_rawOK x (hraw x hx)) hrun
+  obtain ⟨hall, hcols, p, fs, cached, next, seen, rfl, hdec⟩ :=
+    Props.C01.runRows_interp ext fields rows root0 root hcov h0 hs0 hraw hrun
+  have hfacts := root_facts ext fields rows _ hmap hschema (Build.push_takeRest ext) hw
+    (Lemmas.C03.WFB_StrictDict _ hw) hrun
+  simp only [buildArrays, bind, Except.bind] at hba
+  cases hfin : finishFields ext fs with
+  | error e => rw [hfin] at hba; cases hba
+  | ok afs =>
+    rw [hfin] at hba
+    simp only [pure, Except.pure, Except.ok.injEq, Prod.mk.injEq] at hba
+    obtain ⟨rfl, _⟩ := hba
+    have hd := Lemmas.C03.finishFields_decode ext fs afs
+      (Lemmas.C03.WFL_WFBs fs _ (Lemmas.C03.WFB_struct hw).2) (Lemmas.C03.Faithful_struct hfacts.2.1) hfin
+    refine ⟨decCols fs, ?_, ?_, ?_, ?_⟩
+    · rw [List.map_map]
+      have := ArrFields_toList_decode afs
+      have e : (decodeAll ∘ fun (x : FieldMeta × Arr) => x.snd) = fun ma => decodeAll ma.snd := rfl
+      rw [e, this, hd, List.map_map]
+      rfl
+    · -- names: from `BuiltFor`
+      have hb := hfacts.1
+      simp only [Lemmas.C03.BuiltFor] at hb
+      obtain ⟨fields', hfe, _, hbl⟩ := hb
+      simp only [DataType.struct.injEq] at hfe
+      subst hfe
+      exact decCols_names fs _ hbl
+    · intro c hc
+      exact hcols c.2 (by simp only [decRoot, List.mem_map]; exact ⟨c, hc, rfl⟩)
+    · intro i hi
+      obtain ⟨hl, hg⟩ := All2_get hall
+      have h1 : i < (dec (B.struct p rows.length none fs cached next seen)).length := by rw [hl]; exact hi
+      have := hg i h1 hi
+      rw [this]
+      congr 1
+      simp only [hdec, List.getElem_map, List.getElem_range, Build.rowAt]
+where
+  decCols_names : ∀ (fs : BL) (fl : List Field), Lemmas.C03.BuiltForL (Fields.ofList fl) fs →
+      (decCols fs).map (·.1) = fl.map (·.name)
+    | .nil, [], _ => rfl
+    | .nil, _ :: _, h => by simp [Fields.ofList, Lemmas.C03.BuiltForL] at h
+    | .cons _ _ _, [], h => by simp [Fields.ofList, Lemmas.C03.BuiltForL] at h
+    | .cons b m r, f :: fr, h => by
+      simp only [Fields.ofList, Lemmas.C03.BuiltForL] at h
+      obtain ⟨rfl, _, hr⟩ := h
+      simp only [decCols, List.map_cons, decCols_names r fr hr]
+      cases f; rfl
+
+/-! ### a worked instance: the hypotheses are jointly satisfiable on a real run
+
+Two records for the schema `{a: Int32?, l: List<Int8>}` (second record without `a`).  The model run is evaluated by
+`decide` (`exRun`), `to_marrow` succeeds (`exOk`), and every hypothesis of `C03_wf` is discharged: an unconditional instance. -/
+
+def exFields : List Field := [.mk "a" .int32 true [], .mk "l" (.list (.mk "element" .int8 false [])) false []]
+def exRows : List SVal :=
+  [.record "R" (.cons "a" 0 (.int .i32 1) (.cons "l" 1 (.seq (.cons (.int .i8 5) (.cons (.int .i8 6) .nil))) .nil)),
+   .record "R" (.cons "l" 1 (.seq .nil) .nil)]
+def exRoot : B :=
+  .struct "$" 2 none
+    (.cons (.leaf "$.a" (.int .i32) (some [true, false]) [1, 0]) ⟨"a", true, []⟩
+      (.cons (.list "$.l" false ⟨"element", false, []⟩ none [0, 2, 2] (.leaf "$.l.element" (.int .i8) none [5, 6]))
+        ⟨"l", false, []⟩ .nil))
+    [some ("a", 0), some ("l", 1)] 2 [false, true]
+
+theorem exRun : runRows {} exFields exRows = .ok exRoot := by decide
+
+theorem toMarrow_eq (ext : Ext) (fields : List Field) (rows : List SVal) :
+    toMarrow ext fields rows = (do
+      let root ← runRows ext fields rows
+      let (arrs, _) ← buildArrays ext root
+      pure arrs) := by
+  simp only [toMarrow, runRows, bind_assoc]
+
+theorem exOk : (toMarrow {} exFields exRows).isOk = true := by
+  rw [toMarrow_eq, exRun]
+  simp [exRoot, buildArrays, finishFields, finish, bind, Except.bind, pure, Except.pure, R.isOk]
+
+/-- the instance, with every hypothesis of `C03_wf` discharged: both arrays are well formed and have 2 rows -/
+example : ∀ arrs, toMarrow {} exFields exRows = .ok arrs →
+    arrs.length = exFields.length ∧ ∀ (j : Nat) (f : Field) (a : Arr), exFields[j]? = some f →
+      arrs[j]? = some a → WF f a = true ∧ (decodeAll a).length = exRows.length := by
+  intro arrs h
+  refine C03_wf {} exFields exRows arrs ?_ ?_ ?_ ?_ ?_ ?_ ?_ h
+  · simp [exFields, Lemmas.C03.Map2F, Lemmas.C03.Map2]
+  · simp [exFields, Lemmas.C03.SchemaOKF, Lemmas.C03.SchemaOK]
+  · intro root0 h0
+    rw [show newRoot exFields = .ok (.struct "$" 0 none
+      (.cons (.leaf "$.a" (.int .i32) (some []) []) ⟨"a", true, []⟩
+        (.cons (.list "$.l" false ⟨"element", false, []⟩ none [0] (.leaf "$.l.element" (.int .i8) none []))
+          ⟨"l", false, []⟩ .nil)) [none, none] 0 [false, false]) from by decide] at h0
+    cases h0
+    simp [Safe, SafeL]
+  · constructor <;> (intros; rename_i h; cases h)
+  · decide
+  · simp [exRows, Lemmas.C03.SValOK, Lemmas.C03.SFieldsOK, Lemmas.C03.SValsOK, Lemmas.C03.ScalarOK, IntTy.inRange,
+      IntTy.min, IntTy.max]
+  · intro root hr; rw [exRun] at hr; cases hr
+    simp [exRoot, Lemmas.C03.ViewSmall, Lemmas.C03.ViewSmallL]
 
 end SaModel.Props.C03
